@@ -24,7 +24,6 @@ TMP = tempfile.mkdtemp(prefix="c15_", dir=os.getcwd())
 
 from orix import io  # noqa: E402
 from orix.crystal_map import Phase  # noqa: E402
-from orix.crystal_map.crystal_map import _data_slices_from_coordinates  # noqa: E402
 
 cases, fails, strata = [], [], {}
 
@@ -147,7 +146,7 @@ def gen_ang(vendor, mode):
         ids = ids[::-1]
     if R.random() < 0.15:
         ids = [i + R.choice([1, 3]) for i in ids]
-    syms = [k for k in TSL_SYM if k != "62"]
+    syms = list(TSL_SYM)
     with_formula = R.random() < 0.6 and vendor != "astar"
     phases = []
     for k in range(nph):
@@ -318,15 +317,14 @@ def gen_ctf(vendor, mode):
         else:
             nc = 1
             nr = max(nr, 2)
-    elif vendor == "astar" and (nr == 1 or nc == 1):
-        nr, nc = max(nr, 2), max(nc, 2)
     nph = R.choice([1, 1, 2, 3]) if vendor in ("oxford", "bruker") else R.choice([1, 1, 2])
     phases = []
     for k in range(nph):
-        laue = R.choice([1, 2, 3, 4, 5, 6, 7, 8, 9, 11, 11, 11])
+        laue = R.choice([1, 2, 3, 4, 5, 6, 7, 8, 9, 10, 11, 11, 11])
         cands = [n for n in range(1, 231) if LAUE_OF_PG[sg_pg(n)] == LAUE[laue - 1]]
         centro = [n for n in cands if sg_pg(n) == LAUE[laue - 1]]
-        sg = R.choice(centro) if R.random() < 0.8 else 0
+        k3 = R.random()     # centrosymmetric / any space group of the Laue class / none
+        sg = R.choice(centro) if k3 < 0.5 else (R.choice(cands) if k3 < 0.8 else 0)
         if vendor == "mtex":
             sg = 0
         if mode == "laue10" and k == 0:
@@ -858,15 +856,6 @@ def run_one(f, k):
         emsoft_write(tk, f, path)
         kwargs = {"refined": bool(f["use_refined"])}
         extra["refined"] = bool(f["use_refined"])
-    stops = []
-    if f["fmt"] == "ctf":
-        try:
-            sl = _data_slices_from_coordinates({"x": np.array([p["x"] for p in f["pts"]]),
-                                                "y": np.array([p["y"] for p in f["pts"]])})
-            stops = [int(s.stop) for s in sl]
-        except Exception:  # noqa
-            stops = []
-        extra["stops"] = stops
     obs = observe(path, kwargs)
     os.remove(path)
     exp = expected(f)
